@@ -13,101 +13,138 @@ Proof. destruct e as [[[i t] d] n]. unfold ev_okb, ev_ok. rewrite andb_true_iff,
 
 Section P.
   Variable frames_of : Z -> Z -> Z.
+  Variable resync : bool.
 
   (** THE PROPERTY on a history: every [process] call of every callback happens with the rate in force *)
-  Fixpoint all_in_force (s : state) (h : list op) : Prop :=
+  Fixpoint all_in_force_gen (s : state) (h : list op) : Prop :=
     match h with
     | [] => True
-    | o :: h' => Forall (ev_ok (s_rate (fst (step frames_of s o)))) (snd (step frames_of s o))
-                 /\ all_in_force (fst (step frames_of s o)) h'
+    | o :: h' => Forall (ev_ok (s_rate (fst (step_gen frames_of resync s o)))) (snd (step_gen frames_of resync s o))
+                 /\ all_in_force_gen (fst (step_gen frames_of resync s o)) h'
     end.
-  Fixpoint all_in_forceb (s : state) (h : list op) : bool :=
+  Fixpoint all_in_forceb_gen (s : state) (h : list op) : bool :=
     match h with
     | [] => true
-    | o :: h' => forallb (ev_okb (s_rate (fst (step frames_of s o)))) (snd (step frames_of s o))
-                 && all_in_forceb (fst (step frames_of s o)) h'
+    | o :: h' => forallb (ev_okb (s_rate (fst (step_gen frames_of resync s o)))) (snd (step_gen frames_of resync s o))
+                 && all_in_forceb_gen (fst (step_gen frames_of resync s o)) h'
     end.
-  Lemma all_in_forceb_spec h : forall s, all_in_forceb s h = true <-> all_in_force s h.
+  Lemma all_in_forceb_gen_spec h : forall s, all_in_forceb_gen s h = true <-> all_in_force_gen s h.
   Proof.
-    induction h as [|o h IH]; intro s; cbn [all_in_forceb all_in_force]; [tauto|].
+    induction h as [|o h IH]; intro s; cbn [all_in_forceb_gen all_in_force_gen]; [tauto|].
     rewrite andb_true_iff, IH, forallb_forall, Forall_forall.
     split; intros [A B]; split; auto; intros e He; apply ev_okb_spec; auto.
   Qed.
 End P.
 
-(** nothing is between a load and a pick-up: no caller thread holds a loaded rate, every queue is empty *)
-Fixpoint no_queue (t : track) : bool :=
-  match t with Trk _ _ _ ar q => match q with [] => forallb no_queue ar | _ => false end end.
-Definition quiescent (s : state) : bool :=
-  match s_pend s, s_subq s, s_sendq s with
-  | [], [], [] => forallb no_queue (s_subs s) && forallb no_queue (s_sends s)
-  | _, _, _ => false
-  end.
+(** the property for the code as it is ... *)
+Definition all_in_force (frames_of : Z -> Z -> Z) : state -> list op -> Prop := all_in_force_gen frames_of true.
+Definition all_in_forceb (frames_of : Z -> Z -> Z) : state -> list op -> bool := all_in_forceb_gen frames_of true.
+(** ... and for the counter-model without the comparison in [on_start_processing] (before the repair of F14) *)
+Definition all_in_force_unrepaired (frames_of : Z -> Z -> Z) : state -> list op -> Prop := all_in_force_gen frames_of false.
+Definition all_in_forceb_unrepaired (frames_of : Z -> Z -> Z) : state -> list op -> bool := all_in_forceb_gen frames_of false.
 
-(** THE GUARD on a history: no change of the rate (to a different rate) falls between a track's load and its pick-up *)
-Section G.
-  Variable frames_of : Z -> Z -> Z.
-  Fixpoint no_race (s : state) (h : list op) : bool :=
-    match h with
-    | [] => true
-    | o :: h' =>
-        (match o with A_change r => (r =? s_rate s) || quiescent s | _ => true end)
-        && no_race (fst (step frames_of s o)) h'
-    end.
-End G.
+Lemma all_in_forceb_spec fo h s : all_in_forceb fo s h = true <-> all_in_force fo s h.
+Proof. apply all_in_forceb_gen_spec. Qed.
+Lemma all_in_forceb_unrepaired_spec fo h s : all_in_forceb_unrepaired fo s h = true <-> all_in_force_unrepaired fo s h.
+Proof. apply all_in_forceb_gen_spec. Qed.
 
 (** the frame count of a delay plays no role in the witnesses *)
 Definition fo0 (t r : Z) : Z := t * r / 1000000000.
 
 Definition probe_track : tshape := (1, [SEff 0 KProbe []]).
-(** F14: add (load + enqueue); change; callback *)
+(** the former F14 witness: add (load + enqueue); change; callback *)
 Definition h_add_change_cb : list op := [G_load 0 DSub probe_track; G_enqueue 0; A_change 2000; A_callback 4].
-(** the racy variant: load; change; enqueue; callback *)
+(** its racy variant: load; change; enqueue; callback *)
 Definition h_load_change_enq_cb : list op := [G_load 0 DSub probe_track; A_change 2000; G_enqueue 0; A_callback 4].
-(** the two orders that are fine *)
+(** the two orders that were always fine *)
 Definition h_add_cb_change_cb : list op := [G_load 0 DSub probe_track; G_enqueue 0; A_callback 4; A_change 2000; A_callback 4].
 Definition h_change_add_cb : list op := [A_change 2000; G_load 0 DSub probe_track; G_enqueue 0; A_callback 4].
 (** nested: a sub-track pushed on the queue of a track that is already in the arena *)
 Definition h_nested : list op :=
   [G_load 0 DSub (1, []); G_enqueue 0; A_callback 4; G_load 0 (DUnder 1) (2, [SEff 0 KProbe []]); G_enqueue 0;
    A_change 2000; A_callback 4].
-(** a delay's length: 3 ms is 3 frames at 1 kHz and 6 at 2 kHz; the stale delay keeps cutting pieces of 3 *)
+(** nested below a track that is itself still queued: both wait in queues while the rate changes *)
+Definition h_nested_queued : list op :=
+  [G_load 0 DSub (1, [SEff 0 KProbe []]); G_enqueue 0; G_load 0 (DUnder 1) (2, [SEff 1 KProbe []]); G_enqueue 0;
+   A_change 2000; A_callback 4].
+(** a send track *)
+Definition h_send : list op := [G_load 0 DSend (1, [SEff 0 KProbe []]); G_enqueue 0; A_change 2000; A_callback 4].
+(** a delay's length: 3 ms is 3 frames at 1 kHz and 6 at 2 kHz; a stale delay keeps cutting pieces of 3 *)
 Definition h_delay : list op :=
   [G_load 0 DSub (1, [SEff (-1) (KDelay 3000000) [SEff 0 KProbe []]]); G_enqueue 0; A_change 2000; A_callback 8].
+(** there and back while queued: the remembered rate is the rate in force again, nobody is told anything *)
+Definition h_there_and_back : list op :=
+  [G_load 0 DSub probe_track; G_enqueue 0; A_change 2000; A_change 1000; A_callback 4].
 
 Definition init0 := init_state 1000 4 [].
 
+(** the code as it is: every former witness history is in force, the probe is told the new rate at pick-up *)
 Lemma witness_add_change_cb :
-  no_race fo0 init0 h_add_change_cb = false /\ all_in_forceb fo0 init0 h_add_change_cb = false
-  /\ snd (run fo0 init0 h_add_change_cb) = [(0, 1000, 2000, 4)].
+  all_in_forceb fo0 init0 h_add_change_cb = true /\ snd (run fo0 init0 h_add_change_cb) = [(0, 2000, 2000, 4)].
 Proof. vm_compute. auto. Qed.
 Lemma witness_load_change_enq_cb :
-  no_race fo0 init0 h_load_change_enq_cb = false /\ all_in_forceb fo0 init0 h_load_change_enq_cb = false
-  /\ snd (run fo0 init0 h_load_change_enq_cb) = [(0, 1000, 2000, 4)].
+  all_in_forceb fo0 init0 h_load_change_enq_cb = true /\ snd (run fo0 init0 h_load_change_enq_cb) = [(0, 2000, 2000, 4)].
 Proof. vm_compute. auto. Qed.
 Lemma witness_nested :
-  no_race fo0 init0 h_nested = false /\ all_in_forceb fo0 init0 h_nested = false.
+  all_in_forceb fo0 init0 h_nested = true /\ snd (run fo0 init0 h_nested) = [(0, 2000, 2000, 4)] /\
+  all_in_forceb fo0 init0 h_nested_queued = true /\
+  snd (run fo0 init0 h_nested_queued) = [(1, 2000, 2000, 4); (0, 2000, 2000, 4)].
+Proof. vm_compute. auto. Qed.
+Lemma witness_send :
+  all_in_forceb fo0 init0 h_send = true /\ snd (run fo0 init0 h_send) = [(0, 2000, 2000, 4)].
 Proof. vm_compute. auto. Qed.
 Lemma witness_delay :
-  snd (run fo0 (init_state 1000 8 []) h_delay) = [(0, 1000, 2000, 3); (0, 1000, 2000, 3); (0, 1000, 2000, 2)].
+  snd (run fo0 (init_state 1000 8 []) h_delay) = [(0, 2000, 2000, 6); (0, 2000, 2000, 2)].
+Proof. vm_compute. auto. Qed.
+Lemma witness_there_and_back :
+  all_in_forceb fo0 init0 h_there_and_back = true /\ snd (run fo0 init0 h_there_and_back) = [(0, 1000, 1000, 4)] /\
+  s_subs (fst (run fo0 init0 h_there_and_back)) = [Trk 1 1000 [Eff 0 KProbe [(ByInit, 1000)] []] [] []].
 Proof. vm_compute. auto. Qed.
 Lemma witness_good_orders :
-  no_race fo0 init0 h_add_cb_change_cb = true /\ all_in_forceb fo0 init0 h_add_cb_change_cb = true
+  all_in_forceb fo0 init0 h_add_cb_change_cb = true
   /\ snd (run fo0 init0 h_add_cb_change_cb) = [(0, 1000, 1000, 4); (0, 2000, 2000, 4)]
-  /\ no_race fo0 init0 h_change_add_cb = true /\ all_in_forceb fo0 init0 h_change_add_cb = true
+  /\ all_in_forceb fo0 init0 h_change_add_cb = true
   /\ snd (run fo0 init0 h_change_add_cb) = [(0, 2000, 2000, 4)].
 Proof. vm_compute. repeat split. Qed.
 
-(** [stale_rate_refuted]: the wanted invariant fails on histories outside the guard *)
-Lemma stale_rate_refuted_l :
-  exists h, no_race fo0 init0 h = false /\ ~ all_in_force fo0 init0 h.
+(** the counter-model (pick-up without the comparison): the same histories end with a [process] call of an effect that
+    still believes 1000 Hz while dt = 1/2000; the stale delay cuts pieces of 3 frames instead of 6 *)
+Lemma unrepaired_witnesses :
+  all_in_forceb_unrepaired fo0 init0 h_add_change_cb = false /\
+  snd (run_unrepaired fo0 init0 h_add_change_cb) = [(0, 1000, 2000, 4)] /\
+  all_in_forceb_unrepaired fo0 init0 h_load_change_enq_cb = false /\
+  snd (run_unrepaired fo0 init0 h_load_change_enq_cb) = [(0, 1000, 2000, 4)] /\
+  all_in_forceb_unrepaired fo0 init0 h_nested = false /\
+  all_in_forceb_unrepaired fo0 init0 h_nested_queued = false /\
+  all_in_forceb_unrepaired fo0 init0 h_send = false /\
+  snd (run_unrepaired fo0 (init_state 1000 8 []) h_delay) = [(0, 1000, 2000, 3); (0, 1000, 2000, 3); (0, 1000, 2000, 2)] /\
+  all_in_forceb_unrepaired fo0 init0 h_add_cb_change_cb = true /\
+  all_in_forceb_unrepaired fo0 init0 h_change_add_cb = true.
+Proof. vm_compute. repeat split. Qed.
+
+(** F14 regression: the former counter-examples satisfy the property; without the comparison they do not *)
+Lemma f14_regression_l :
+  (all_in_force fo0 init0 h_add_change_cb /\ snd (run fo0 init0 h_add_change_cb) = [(0, 2000, 2000, 4)]) /\
+  (all_in_force fo0 init0 h_load_change_enq_cb /\ snd (run fo0 init0 h_load_change_enq_cb) = [(0, 2000, 2000, 4)]) /\
+  all_in_force fo0 init0 h_nested /\ all_in_force fo0 init0 h_nested_queued /\ all_in_force fo0 init0 h_send /\
+  snd (run fo0 (init_state 1000 8 []) h_delay) = [(0, 2000, 2000, 6); (0, 2000, 2000, 2)] /\
+  (~ all_in_force_unrepaired fo0 init0 h_add_change_cb /\
+   snd (run_unrepaired fo0 init0 h_add_change_cb) = [(0, 1000, 2000, 4)]) /\
+  (~ all_in_force_unrepaired fo0 init0 h_load_change_enq_cb /\
+   snd (run_unrepaired fo0 init0 h_load_change_enq_cb) = [(0, 1000, 2000, 4)]) /\
+  ~ all_in_force_unrepaired fo0 init0 h_nested /\ ~ all_in_force_unrepaired fo0 init0 h_nested_queued /\
+  ~ all_in_force_unrepaired fo0 init0 h_send /\
+  snd (run_unrepaired fo0 (init_state 1000 8 []) h_delay) = [(0, 1000, 2000, 3); (0, 1000, 2000, 3); (0, 1000, 2000, 2)].
 Proof.
-  exists h_add_change_cb. destruct witness_add_change_cb as [A [B _]]. split; [exact A|].
-  intro H. apply all_in_forceb_spec in H. congruence.
-Qed.
-Lemma stale_rate_racy_refuted_l :
-  exists h, no_race fo0 init0 h = false /\ ~ all_in_force fo0 init0 h.
-Proof.
-  exists h_load_change_enq_cb. destruct witness_load_change_enq_cb as [A [B _]]. split; [exact A|].
-  intro H. apply all_in_forceb_spec in H. congruence.
+  destruct witness_add_change_cb as [A1 A2]. destruct witness_load_change_enq_cb as [B1 B2].
+  destruct witness_nested as [C1 [_ [C2 _]]]. destruct witness_send as [D1 _].
+  destruct unrepaired_witnesses as [U1 [U2 [U3 [U4 [U5 [U6 [U7 [U8 _]]]]]]]].
+  assert (N : forall h, all_in_forceb_unrepaired fo0 init0 h = false -> ~ all_in_force_unrepaired fo0 init0 h).
+  { intros h E H. apply all_in_forceb_unrepaired_spec in H. congruence. }
+  pose proof (fun h E => proj1 (all_in_forceb_spec fo0 h init0) E) as Y.
+  split; [split; [apply Y; exact A1|exact A2]|]. split; [split; [apply Y; exact B1|exact B2]|].
+  split; [apply Y; exact C1|]. split; [apply Y; exact C2|]. split; [apply Y; exact D1|].
+  split; [exact witness_delay|].
+  split; [split; [apply N; exact U1|exact U2]|]. split; [split; [apply N; exact U3|exact U4]|].
+  split; [apply N; exact U5|]. split; [apply N; exact U6|]. split; [apply N; exact U7|]. exact U8.
 Qed.
